@@ -147,6 +147,7 @@ type HCase struct {
 	Started      bool       `json:"started_backend,omitempty"`       // the backend names the betting event "Started"
 	LeavePct     int        `json:"bystander_leave_pct,omitempty"`   // chance per step that the seated, never-joined player leaves mid-hand
 	PartLeavePct int        `json:"participant_leave_pct,omitempty"` // chance per step that a dealt-in player leaves mid-hand (ends the history)
+	SlowPct      int        `json:"slow_listener_pct,omitempty"`     // chance that the action listener takes 150 ms (it runs under the engine lock, before the statistics are written)
 	WithholdAt   string     `json:"withhold_at,omitempty"`           // ready | ante | blinds
 	StateOnFail  bool       `json:"state_with_error,omitempty"`      // an injected backend failure returns the state the engine computed together with the error (a lost reply)
 	LateExtPct   int        `json:"late_extend_pct,omitempty"`       // chance that a deadline extension is served right after a betting round closed (inside Next)
@@ -534,6 +535,23 @@ func runHandCase(c *HCase) {
 		}
 	}
 	hr.injected = &injected
+	if c.SlowPct > 0 {
+		slowRNG := r.Fork(93)
+		var smu sync.Mutex
+		d.slowListener = func(a pt.TablePlayerGameAction) {
+			if a.Action == "pay" {
+				// payments are published by the collection callbacks outside the engine lock while the hand goes on: a slow
+				// listener there outlives a fast hand and the callback then indexes a cleared hand (an engine hazard, DESIGN.md 13.7)
+				return
+			}
+			smu.Lock()
+			slow := slowRNG.Chance(c.SlowPct, 100)
+			smu.Unlock()
+			if slow {
+				time.Sleep(150 * time.Millisecond)
+			}
+		}
+	}
 	d.be.stateOnFail = c.StateOnFail
 	// reproducible decks: replace the shuffled deck of every new hand by a seeded permutation
 	deckRNG := r.Fork(77)
@@ -656,6 +674,11 @@ func runHandCase(c *HCase) {
 				s := hr.bystanderLeaves(c, idOf(d.playerIDAt(gp)))
 				s.Call.Why = "participant"
 				c.Note = "a participant left mid-hand"
+				// the hand's index list no longer matches the hand: letting the hand go on would crash the engine's own
+				// goroutines (and this process with them); the hand is frozen instead
+				d.be.mu.Lock()
+				d.be.failAll = true
+				d.be.mu.Unlock()
 				break
 			}
 		}
@@ -877,6 +900,9 @@ func genHand(root *RNG, i int, seed uint64) HCase {
 	}
 	if r.Chance(1, 8) {
 		c.PartLeavePct = 6
+	}
+	if r.Chance(1, 5) {
+		c.SlowPct = 30
 	}
 	if r.Chance(1, 4) {
 		c.LateExtPct = 50
